@@ -4,6 +4,9 @@ import actions
 from abstraction import concrete, concrete_frame
 
 
+STATELESS = {'EncodeValue', 'EncodeArg', 'EncodeFixed', 'Unmarshal', 'DecodeValue', 'FrameParts', 'CutSet', 'RoundTrip'}
+
+
 def _last(ev):
     a = ev['a']
     keep = {k: ev[k] for k in ('id', 'a', 'p', 'nt', 'sigx', 'label', 'session') if k in ev}
